@@ -12,6 +12,11 @@ Mirrors `code_hash.py` (`HashRule` family, `_visit_dependency`, `collect_transit
   digests (bytecode, names, constants incl. nested code objects, defaults, keyword-only defaults,
   flags), `refs` for `list_dotted_names` resolved to objects, in source order. The traversal iterates
   a Python `set` of these names: its order is the parameter `ord` (any permutation), see C03.
+  The digest of a function (`Ser.code`) covers `refs` as *resolved* references: in the code the symbols are
+  part of the code object (`co_names`), a symbol that is the function's own name is bound to it by the rule
+  key, and every other symbol (an alias) is digested together with the function it refers to (fix F21 —
+  before it, re-binding an alias between two functions of the closure did not change the version; found by
+  the partition stream of the correspondence check, which showed this model to be finer than the code).
 * `Def.plain inPkg tok refs`: a plain function, `inPkg` = its module's `__package__` is the root's.
 * `Def.var (some v)`: a module variable of a supported type with serialised value `v`;
   `Def.var none`: a variable of an unsupported type (no rule matches; untracked).
